@@ -241,6 +241,29 @@ exit 0
             if order == 0 or tier != "quick":
                 out.append({"inputs": inp, "files": tools, "argv": ["--binary-path", "../bin/app", "--llvm-path", "../tools", "-t", "html", "-o", "../out/html"], "out": "out/html",
                             "tag": "profiles-samename-%s-%s" % (ka, kb)})
+    # symbolic links to DIRECTORIES whose names look like profiles / gcov files, next to real directories named <link stem>_1.<ext> holding a
+    # member: if the link were taken for a file, its staging link <tmp>/p_1.profraw would lead the next staging into the input tree.
+    # Several names, because the producer's hash map decides what is staged first.
+    lk_entries, lk_links = [["store/keep.txt", n["txt"], "decoy"], ["store/inner.profraw", pb[0], "profraw"]], []
+    for i, st in enumerate(["p", "q", "r", "s", "t", "u"]):
+        ext = "profraw" if i < 4 else "profdata"
+        lk_links.append(["%s.%s" % (st, ext), "store", None])
+        lk_entries.append(["%s_1.%s/x.%s" % (st, ext, ext), pb[1 + i], ext])
+    lk_links += [["g.gcno", "store", None], ["g.gcda", "store", None], ["dangling.profraw", "nowhere", None], ["sub/back.profraw", "..", None]]
+    lk_entries += [["g_1.gcno/y.gcno", n["gcc_gcno_main"], "gcno"], ["g_1.gcno/y.gcda", n["gcc_gcda_main"], "gcda"]]
+    linked = [{"kind": "dir", "name": "tree", "entries": lk_entries, "links": lk_links}]
+    out.append({"inputs": linked, "argv": ["-t", "lcov", "-o", "../out/o.lcov"], "out": "out/o.lcov", "tag": "dir-symlinks-named-like-profiles"})
+    out.append({"inputs": linked, "files": tools, "argv": ["--binary-path", "../bin/app", "--llvm-path", "../tools", "-t", "html", "-o", "../out/html"], "out": "out/html",
+                "tag": "dir-symlinks-named-like-profiles"})
+    out.append({"inputs": linked, "cwd": "in/tree", "argv": ["--llvm", "-t", "covdir", "-o", "@SB@/out/o.json"], "out": "out/o.json", "tag": "dir-symlinks-named-like-profiles"})
+    # a failing llvm-profdata (and a failing llvm-cov): whatever grcov keeps for diagnosis must be inside its own temporary directory and go with it
+    fail_sh = b"#!/bin/sh\ncat > /dev/null\necho 'error: malformed profile' >&2\nexit 1\n"
+    tools_fail = [("tools/llvm-profdata", fail_sh, 0o755)] + tools[1:]
+    tools_covfail = [tools[0], ("tools/llvm-cov", b"#!/bin/sh\necho 'error: no coverage data' >&2\nexit 1\n", 0o755)] + tools[2:]
+    for tl, tg in ((tools_fail, "profdata-fails"), (tools_covfail, "cov-fails")):
+        for key in ("plain", "dir", "zip", "mixed"):
+            out.append({"inputs": prof_inputs[key], "files": tl, "argv": ["--binary-path", "../bin/app", "--llvm-path", "../tools", "-t", "lcov", "-o", "../out/o.lcov"],
+                        "out": "out/o.lcov", "tag": "profiles-%s-%s" % (key, tg)})
     for tag, inp in prof_inputs.items():
         outs = OUTPUTS[:2] + [OUTPUTS[10], OUTPUTS[11]] if tier == "quick" else OUTPUTS
         for argv, o, pre in outs:
@@ -309,7 +332,7 @@ def run(chk):
     chk.cov["rule"] = ("CLI runs inside a fresh sandbox tree (inputs, a canary sibling directory, the output location, TMPDIR, the working directory), full snapshot "
                        "(paths, sizes, SHA-256, link targets) before and after: 12 output configurations (lcov, html, html into an existing dir, covdir, files, cobertura, "
                        "cobertura-pretty, markdown, ade, coveralls, four types into one directory, stdout) x {benign dir+zip+plain inputs with --llvm, tracefiles whose SF paths are "
-                       "relative with '..', absolute, or normalise outside, with and without -s}; several output types with -o an existing / missing / nested missing directory or a regular file, started from elsewhere and from inside the input directory; GCC path from directories and zips (gcov runs); source-based coverage with stand-in llvm-profdata/llvm-cov and profiles as plain arguments, in a directory, in a zip and mixed, and same-named profiles with different contents in different sub-directories of a directory and a zip (both orders, dir+dir, zip+zip); recorded paths with backslashes whose literal file exists under -s and the working directory (html, multi-output); symlinked input directory and links "
+                       "relative with '..', absolute, or normalise outside, with and without -s}; several output types with -o an existing / missing / nested missing directory or a regular file, started from elsewhere and from inside the input directory; GCC path from directories and zips (gcov runs); source-based coverage with stand-in llvm-profdata/llvm-cov and profiles as plain arguments, in a directory, in a zip and mixed, failing llvm-profdata / llvm-cov stubs, directory symlinks named like profiles next to <stem>_1.<ext>/ directories, and same-named profiles with different contents in different sub-directories of a directory and a zip (both orders, dir+dir, zip+zip); recorded paths with backslashes whose literal file exists under -s and the working directory (html, multi-output); symlinked input directory and links "
                        "inside an input directory; hostile zips (member names with '..', absolute, '..' that stays inside, 295-byte names, duplicates, hostile .info/.xml names; with and "
                        "without --llvm).  Every changed path must lie in TMPDIR or at the output location, TMPDIR must be empty after exit 0; Model/Confine.v's verdict "
                        "on every hostile member name is evaluated (safe => inside); unsafe members must leave no trace outside (regression guard for the fixed zip-slip).  non-trivial = run with distinct (arguments, changes)")
